@@ -93,3 +93,13 @@ package ed25519
 //@   requires forall(i, 0, 32, sb[i] == edwards25519.sencb(edwards25519.smuladd(k, s, r), i))
 //@   ensures  edwards25519.scanon(sb) && edwards25519.pdecodes(pk) && edwards25519.pdecodes(rb)
 //@   ensures  edwards25519.pmul8(edwards25519.smul(edwards25519.sfrom(sb), edwards25519.pB())) == edwards25519.padd(edwards25519.pmul8(edwards25519.pdecode(rb)), edwards25519.pmul8(edwards25519.smul(k, edwards25519.pdecode(pk))))
+
+// GenerateKey: the seed is the next 32 bytes of the reader (crypto/rand.Reader when rand is nil), read in
+// full, and the key pair is the one of that seed.
+//@ func GenerateKey(rand io.Reader) (pub PublicKey, priv PrivateKey, err error)
+//@   props C07
+//@   panics  never
+//@   ensures implies(isnil(err), len(pub) == 32 && len(priv) == 64)
+//@   ensures implies(isnil(err) && !isnil(rand), forall(i, 0, 32, priv[i] == io.rdb(rand, i)))
+//@   ensures implies(isnil(err), forall(i, 0, 32, priv[32+i] == edwards25519.pencb(pubpoint(priv[0:32]), i) && pub[i] == priv[32+i]))
+//@   ensures implies(!isnil(err), pub == nil && priv == nil)
